@@ -22,6 +22,7 @@ mod c15;
 mod c16;
 mod c17;
 mod c18;
+mod c20;
 
 use common::*;
 use serde_json::{json, Value as J};
@@ -243,6 +244,7 @@ fn main() {
         "C13" => c13::run(thorough),
         "C14" => c14::run(thorough),
         "C18" => c18::run(thorough),
+        "C20" => c20::run(thorough),
         _ => {
             eprintln!("unknown property id {}", id);
             std::process::exit(2);
